@@ -103,7 +103,21 @@ func (g *commentGen) doc(indent, marker string) (string, []string) {
 	if marker != "" {
 		pos := g.pick(len(parts)+1, "marker-pos")
 		var m string
-		switch g.pick(4, "marker-style") {
+		switch g.pick(6, "marker-style") {
+		case 4:
+			// the marker inside a sentence: the comment still contains it (no setting line though)
+			g.styles["marker-in-sentence"] = true
+			m = indent + "// This one is the " + marker + " of the package.\n"
+			parts = append(parts[:pos], append([]string{m}, parts[pos:]...)...)
+			lines = append(lines[:pos], append([][]string{nil}, lines[pos:]...)...)
+			m = ""
+		case 5:
+			// the marker followed by more characters: contained as well, the line is a setting line
+			g.styles["marker-with-suffix"] = true
+			m = indent + "// " + marker + "s\n"
+			parts = append(parts[:pos], append([]string{m}, parts[pos:]...)...)
+			lines = append(lines[:pos], append([][]string{{strings.TrimPrefix(marker, "goverter:") + "s"}}, lines[pos:]...)...)
+			m = ""
 		case 0:
 			m = indent + "// " + marker + "\n"
 		case 1:
@@ -113,8 +127,10 @@ func (g *commentGen) doc(indent, marker string) (string, []string) {
 		default:
 			m = indent + "//\t" + marker + "  \n"
 		}
-		parts = append(parts[:pos], append([]string{m}, parts[pos:]...)...)
-		lines = append(lines[:pos], append([][]string{{strings.TrimPrefix(marker, "goverter:")}}, lines[pos:]...)...)
+		if m != "" {
+			parts = append(parts[:pos], append([]string{m}, parts[pos:]...)...)
+			lines = append(lines[:pos], append([][]string{{strings.TrimPrefix(marker, "goverter:")}}, lines[pos:]...)...)
+		}
 	}
 	var flat []string
 	for _, l := range lines {
